@@ -10,6 +10,7 @@ import (
 	"github.com/yorkie-team/yorkie/pkg/document/crdt"
 	"github.com/yorkie-team/yorkie/pkg/document/time"
 	"github.com/yorkie-team/yorkie/pkg/key"
+	"github.com/yorkie-team/yorkie/server/backend/database"
 	"github.com/yorkie-team/yorkie/server/packs"
 )
 
@@ -71,6 +72,10 @@ func (r *Run) CheckServerDocNow(ctx context.Context, ref *RefReplica, step int) 
 	if err != nil {
 		return
 	}
+	if r.cacheOnly {
+		r.checkCacheVsStore(ctx, info, step)
+		return
+	}
 	want := ref.AtSeq[ref.upTo-1]
 	for k, mode := range []string{"as-is", "warm", "after-caller-mutation"} {
 		d, err := packs.BuildInternalDocForServerSeq(ctx, be, info, info.ServerSeq)
@@ -85,6 +90,40 @@ func (r *Run) CheckServerDocNow(ctx context.Context, ref *RefReplica, step int) 
 		if k == 1 {
 			p, _ := crdt.NewPrimitive("mutated-by-caller", time.MaxTicket)
 			d.RootObject().Set("zz-mutated", p)
+		}
+	}
+}
+
+// checkCacheVsStore (C20): the document built from whatever the snapshot cache holds now, again
+// from the warm cache, and again after the caller mutated its copy, must be the document built
+// from the store alone (cache purged: closest stored snapshot + stored changes).
+func (r *Run) checkCacheVsStore(ctx context.Context, info *database.DocInfo, step int) {
+	be := r.S.Be
+	var got []string
+	modes := []string{"as-is", "warm", "after-caller-mutation"}
+	for k := range modes {
+		d, err := packs.BuildInternalDocForServerSeq(ctx, be, info, info.ServerSeq)
+		if err != nil {
+			r.problem("server-rebuild-error", step, "BuildInternalDocForServerSeq(%d) [%s]: %v", info.ServerSeq, modes[k], err)
+			return
+		}
+		got = append(got, d.Marshal())
+		if k == 1 {
+			p, _ := crdt.NewPrimitive("mutated-by-caller", time.MaxTicket)
+			d.RootObject().Set("zz-mutated", p)
+		}
+	}
+	be.Cache.Snapshot.Purge()
+	d, err := packs.BuildInternalDocForServerSeq(ctx, be, info, info.ServerSeq)
+	if err != nil {
+		r.problem("server-rebuild-error", step, "cold BuildInternalDocForServerSeq(%d): %v", info.ServerSeq, err)
+		return
+	}
+	want := d.Marshal()
+	for k := range modes {
+		if got[k] != want {
+			r.problem("cache-served-differs", step, "BuildInternalDocForServerSeq(%d) [%s]: %s   from the store alone (cache purged): %s", info.ServerSeq, modes[k], got[k], want)
+			return
 		}
 	}
 }
